@@ -154,8 +154,14 @@ func (bc *BaseComponent) GetAttribute(name string) *string {
 		return &classValue
 	}
 
-	// 3. Check global defaults - we can't access GetTagName from BaseComponent
-	// Global attributes will be checked in GetAttributeWithDefault or by passing component
+	// 3. Check global defaults (mj-attributes: the element's own tag, then mj-all); the tag name
+	// comes from the node the component was built from
+	if bc.Node != nil {
+		if globalValue := globals.GetGlobalAttribute(bc.Node.GetTagName(), name); globalValue != "" {
+			normalized := normalizeAttributeValue(name, globalValue)
+			return &normalized
+		}
+	}
 
 	// 4. Check component defaults
 	if defaultVal := bc.GetDefaultAttribute(name); defaultVal != "" {
